@@ -22,7 +22,7 @@ FORM = ('E (exact rationals, instance QIring): built-in models - MPO.bond_dims o
         'implementation bond dimensions after graph.simplify(), none larger than before')
 RULE = ('built-in: Ising, XXZ spin-1/2 and spin-1, Bose-Hubbard d in 2..4, Fermi-Hubbard, linear fermionic (both types, complex coefficients), '
         'generic non-zero random parameters, L in 1..10 (operator Schmidt rank by SVD of the reshaped dense operator for d=2: L<=8, d=3: L<=5, d=4: L<=4); '
-        'optimized molecular L in 1..6 and spin-molecular L in 1..3 with generic dense real/complex coefficient tensors (prop only); '
+        'optimized molecular L in 1..6 and spin-molecular L in 1..3 with generic dense real/complex coefficient tensors, plus L = 8, 9 (thorough 7..10) and spin L = 4 with the Schmidt rank of the MPO\'s own dense matrix (prop only); '
         'arbitrary chain lists as in C05 (1..8 chains, L in 1..6, duplicates, cancelling pairs, zero coefficients, charges); '
         'simplify: bundles of parallel identity-padded paths (shared prefixes/suffixes, duplicates) and random consistent layered graphs with '
         'parallel edges; non-trivial = some bond dimension > 1; distinct by full case')
@@ -99,6 +99,11 @@ def cases(rng, tier):
         spin = (k % 3 == 2)
         out.append({'kind': 'molecular', 'spin': spin, 'L': rng.choice([1, 2, 3] if spin else [1, 2, 3, 4, 5, 5, 6]), 'seed': rng.getrandbits(30),
                     'dtype': rng.choice(['real', 'complex'])})
+    # longer lattices: the bipartite graphs of the optimized construction have several hundred vertices (49 x 484 at L = 9); the operator
+    # Schmidt rank is taken from the dense matrix of the MPO itself (that the MPO is the documented operator is C07's subject)
+    for L, spin in {'quick': ((8, False), (9, False), (4, True)), 'thorough': ((7, False), (8, False), (9, False), (10, False), (4, True)),
+                    'search': ((9, False),)}[tier]:
+        out.append({'kind': 'molecular', 'spin': spin, 'L': L, 'seed': rng.getrandbits(30), 'dtype': rng.choice(['real', 'complex']), 'selfref': True})
     nc = {'quick': 130, 'thorough': 600, 'search': 150}[tier]
     for _ in range(nc):
         c = C5.gen_chains_case(rng)
@@ -177,6 +182,12 @@ def impl(case):
             t = rs.standard_normal((L, L)); v = rs.standard_normal((L, L, L, L))
             if case['dtype'] == 'complex':
                 t = t + 1j * rs.standard_normal((L, L)); v = v + 1j * rs.standard_normal((L, L, L, L))
+            if case.get('selfref'):
+                H = (ptn.spin_molecular_hamiltonian_mpo if case['spin'] else ptn.molecular_hamiltonian_mpo)(t, v, optimize=_truthy(case))
+                d = 4 if case['spin'] else 2
+                M = G.mpo_dense(H.A)
+                rk = HR.schmidt_ranks(M, d, L)
+                return {'dims': [int(x) for x in H.bond_dims], 'd': d, 'err': 0.0, 'ranks': rk, 'ranks_mpo': rk}
             if case['spin']:
                 H = ptn.spin_molecular_hamiltonian_mpo(t, v, optimize=_truthy(case)); R = HR.spin_molecular(t, v); d = 4
             else:
